@@ -7,11 +7,12 @@ from vlib.rtc.lib import *  # noqa
 RULE = ('every function of 3 variables x every partial assignment of constants (27) x every variable map (4^3 incl. '
         'swaps and non-injective maps, over 3 variables + 1 spare) x sampled tuples of replacement functions (1-3 '
         'variables substituted at once, replacements may mention replaced variables) x every order, on dd.bdd and '
-        'dd.autoref, fresh and warmed-up managers; 4-5 variables sampled. Oracle: truth-table substitution with all '
+        'dd.autoref, fresh and warmed-up managers; 4-5 variables sampled; level-shift histories (lib.shift_history: held functions over 4 '
+        'names, small substitutions between undeclarations / declarations of unused variables, swaps and re-use of node numbers). Oracle: truth-table substitution with all '
         'replacements evaluated under the original assignment. non-trivial: substituted variable in the support; '
         'distinct = (kind, truth table, substitution, order).')
 EXHAUSTIVE = {'quick': False, 'thorough': False}
-REQUIRED_COUNTERS = ['cofactor-checked', 'compose-checked', 'rename-checked']
+REQUIRED_COUNTERS = ['cofactor-checked', 'compose-checked', 'rename-checked', 'let-after-level-shift']
 NAMES = ['x', 'y', 'z']
 
 
@@ -30,6 +31,9 @@ def chunks(tier, seed):
             for part in range(4):
                 out.append(('case_all3', [dict(order=list(o), warm=warm, part=part, seed=seed,
                                                ncomp=6 if tier == 'quick' else 40)]))
+    ns = 60 if tier == 'quick' else 600 * DEEP
+    for k in range(0, ns, 10):
+        out.append(('case_shift', [dict(seed=seed * 4421 + k + i, steps=40) for i in range(10)]))
     n5 = 200 if tier == 'quick' else 4000 * DEEP
     for k in range(0, n5, 25):
         out.append(('case_sampled', [dict(seed=seed * 7 + k, count=25, nvars=4 + (k // 25) % 2, dyn=(k // 50) % 2)]))
@@ -168,4 +172,41 @@ def case_sampled(c, res):
         keys.append((kind, t, tuple(sorted(map(str, dd_.items())))))
     wf(b, names)
     res.evals += c['count'] - 1
+    return keys
+
+
+def case_shift(c, res):
+    """small substitutions into a few held functions while unused variables are undeclared / declared, levels swapped and node numbers
+    re-used (lib.shift_history)"""
+    keys = []
+
+    def query(m, b, names, held, rnd):
+        n = len(names)
+        F = full(n)
+        u, t = rnd.choice(held)
+        kind = rnd.choice(['const', 'name', 'func'])
+        sub = rnd.sample(names, rnd.choice([1, 1, 2]))
+        hold = []
+        if kind == 'const':
+            d = {x: rnd.random() < .5 for x in sub}
+            funcs = {names.index(x): (F if v else 0) for x, v in d.items()}
+        elif kind == 'name':
+            d = {x: rnd.choice(names) for x in sub}
+            funcs = {names.index(x): vmask(names.index(y), n) for x, y in d.items()}
+        else:
+            d, funcs = {}, {}
+            for x in sub:
+                g, tg = rnd.choice(held)
+                d[x] = g
+                funcs[names.index(x)] = tg
+        auto = rnd.random() < .4
+        r = _let(m, b, auto, d, u)
+        got = den(b, r, names)
+        want = tt_subst(t, funcs, n)
+        require(got == want, f'let[{kind}]#post:substitution',
+                lambda: f'after declarations changed: tt={t} u={u} d={d} order={dict(b.vars)} auto={auto}: got {got} want {want}')
+        release_all(b, hold)
+        res.count('let-after-level-shift')
+        keys.append((kind, t, tuple(sorted(map(str, d.items()))), tuple(sorted(b.vars, key=b.vars.get))))
+    shift_history(c, res, query)
     return keys
